@@ -17,7 +17,8 @@ LEVEL = 'exploration'
 RULE = ('Cases: (function, shape, dtype/alphabet) drawn from a seeded RNG: mv_to_bp/bp_to_mv round trips on rank 1..4 arrays with 1..70 patterns, '
         'mvarray/bparray from strings and nested lists incl. aliases, mv_str round trips (rank 1 and 2), packbits/unpackbits on all 8 integer '
         'dtypes (random, edge values, truncation and padding), popcount on uint8 arrays. Non-trivial iff the pattern count is not a multiple of 8, '
-        'or the rank differs from 2, or an alias character / non-uint8 dtype is involved. Distinct = distinct (function, shape, dtype, content digest).')
+        'or the rank differs from 2, or an alias character / non-uint8 dtype is involved. Distinct = distinct (function, shape, dtype, content digest).'
+        ' Plus numpy scalar aliases of 0/1, single-signal and single-pattern arrays for mv_str, interpret() results edited in place, pattern counts up to 70001.')
 ASSUMPTIONS = ['several one-character arguments to mvarray are one vector (as tests/test_logic.py::test_mvarray_single_vector states)',
                'mv_str is only defined for rank <= 2; unpackbits needs a C-contiguous array of rank >= 1',
                "anything that is not a documented alias reads as UNKNOWN ('X')"]
